@@ -60,6 +60,16 @@ M={
 
 		// update the transition status and info.''','''		// update the transition status and info.''','VerifC18SigningCompleted'),
  'M20':(K+'keeper_transition.go','execTime.After(maxExecTime)','execTime.After(maxExecTime.Add(1))','VerifC18ForceTransitionGroup'),
+ 'M22':(K+'keeper_transition.go','\tif transition.CurrentGroupID != 0 {\n\t\tk.DeleteMembers','\tif true {\n\t\tk.DeleteMembers','VerifC18EndBlock'),
+ 'M23':(K+'msg_server.go','''	// add members from new group.
+	if err := k.Keeper.AddMembers(ctx, req.IncomingGroupID); err != nil {
+		return nil, err
+	}
+''','','VerifC18ForceTransitionGroup'),
+ 'M24':(K+'tss_callback.go','''		bandtssSigning := cb.k.MustGetSigning(ctx, bandtssSigningID)
+		cb.k.DeleteSigningIDMapping(ctx, signingID)
+''','''		bandtssSigning := cb.k.MustGetSigning(ctx, bandtssSigningID)
+''','VerifC18SigningCompleted'),
  'M21':(K+'msg_server.go','if currentGroupID == req.IncomingGroupID {','if currentGroupID == req.IncomingGroupID && false {','VerifC18ForceTransitionGroup'),
 }
 env=dict(os.environ,GOFLAGS='-mod=mod',GOPROXY='off',GOSUMDB='off',GOTOOLCHAIN='local')
